@@ -307,8 +307,20 @@ class TypeParser:
         return ty
 
     def skip_fn_quals(self):
-        while self.peek() in ('const', 'volatile', 'noexcept', '&', '&&'):
-            self.eat()
+        while self.peek() in ('const', 'volatile', 'noexcept', '&', '&&', 'throw'):
+            t = self.eat()
+            if t in ('noexcept', 'throw') and self.peek() == '(':
+                d = 0
+                while True:
+                    x = self.eat()
+                    if x == '(':
+                        d += 1
+                    elif x == ')':
+                        d -= 1
+                        if d == 0:
+                            break
+                    elif x is None:
+                        break
 
     def parse_arrays(self, ty):
         dims = []
@@ -400,6 +412,7 @@ class Config:
         self.rename = {}             # cname -> cname
         self.scalar_records = {}     # record name -> C scalar type (e.g. std::atomic handled separately)
         self.outside_methods = {}    # record outside babylon -> set of method names lowered to extern C functions
+        self.aliases = []            # (normalised C++ name fragment, short replacement) applied before C names are formed
         for k, v in kw.items():
             setattr(self, k, v)
 
@@ -552,6 +565,9 @@ class Unit:
                 return ('atomic', self.resolve(parse_type(m.group(2)), ctx))
             if name in self.records:
                 return ('rec', name)
+            alt = self._fuzzy_record(name)
+            if alt is not None:
+                return ('rec', alt)
             if name in self.enums:
                 return ('enum', name)
             if name in self.typedefs:
@@ -568,6 +584,30 @@ class Unit:
         if k == 'fn':
             return ('fn', self.resolve(ty[1], ctx), [self.resolve(p, ctx) for p in ty[2]], ty[3])
         return ty
+
+    def _fuzzy_record(self, name):
+        """clang prints `Futex<S>` where the specialization is declared as `Futex<S, void>` (defaulted
+        trailing template arguments): accept a unique record whose name extends one argument list"""
+        if not hasattr(self, '_fuzzy_cache'):
+            self._fuzzy_cache = {}
+        if name in self._fuzzy_cache:
+            return self._fuzzy_cache[name]
+        res = None
+        if '>' in name:
+            cands = set()
+            for i, ch in enumerate(name):
+                if ch != '>':
+                    continue
+                pre, post = name[:i], name[i:]
+                for k in self.records:
+                    if k.startswith(pre + ',') and k.endswith(post) and len(k) > len(name):
+                        mid = k[len(pre) + 1:len(k) - len(post)]
+                        if mid.count('<') == mid.count('>'):
+                            cands.add(k)
+            if len(cands) == 1:
+                res = cands.pop()
+        self._fuzzy_cache[name] = res
+        return res
 
     def _decl_type_str(self, n):
         t = n.get('type', {})
@@ -646,8 +686,13 @@ class Unit:
         raise Abort('type_tag %r' % (ty,))
 
     # ---------------------------------------------------------------- records
+    def alias(self, name):
+        for a, b in self.cfg.aliases:
+            name = name.replace(a, b)
+        return name
+
     def struct_cname(self, name):
-        return sanitize(re.sub(r'^babylon::', '', name))
+        return sanitize(re.sub(r'^babylon::', '', self.alias(name)))
 
     def need_struct(self, name, complete=True):
         cn = 'struct ' + self.struct_cname(name)
@@ -688,6 +733,17 @@ class Unit:
                 pass
         return out
 
+    def _aligned_attr(self, n):
+        for c in n.get('inner', []):
+            if c.get('kind') == 'AlignedAttr':
+                v = None
+                for x in c.get('inner', []):
+                    v = self._const_value(x)
+                if v is None:
+                    abort('alignas without constant value', n)
+                return int(v)
+        return None
+
     def emit_struct(self, name):
         if self.struct_state.get(name) in ('emitting', 'done'):
             if self.struct_state.get(name) == 'emitting':
@@ -721,14 +777,16 @@ class Unit:
                 fty = self.type_of(x)
                 if self.is_ref(fty):
                     fty = ('ptr', fty[1])
-                lines.append('  %s;' % self.ctype(fty, cname))
+                al = self._aligned_attr(x)
+                lines.append('  %s%s;' % (self.ctype(fty, cname), ' __attribute__((aligned(%s)))' % al if al else ''))
                 if x.get('name'):
                     checks.append((x['name'], cname))
         if not lines:
             lines.append('  char __empty;')
         if kw == 'union':
             abort('union record', rec)
-        al = ''
+        ra = self._aligned_attr(rec)
+        al = ' __attribute__((aligned(%s)))' % ra if ra else ''
         self.struct_text[name] = 'struct %s {\n%s\n}%s;' % (sn, '\n'.join(lines), al)
         self.struct_state[name] = 'done'
         self.struct_order.append(name)
@@ -741,7 +799,7 @@ class Unit:
         return self.funcs_by_first.get(first), first
 
     def _base_cname(self, fd):
-        qn = self.qualname(fd)
+        qn = self.alias(self.qualname(fd))
         k = fd.get('kind')
         base = re.sub(r'^babylon::', '', qn)
         nm = fd.get('name', '')
@@ -754,7 +812,7 @@ class Unit:
         targs = [self._targ_text(c) for c in fd.get('inner', []) if c.get('kind') == 'TemplateArgument']
         cn = sanitize(base)
         if targs:
-            cn += '__' + '_'.join(sanitize(re.sub(r'^babylon::', '', norm_name(t))) or 'x' for t in targs)
+            cn += '__' + '_'.join(sanitize(re.sub(r'^babylon::', '', self.alias(norm_name(t)))) or 'x' for t in targs)
         return cn
 
     def _overload_table(self):
@@ -791,6 +849,8 @@ class Unit:
             except Abort:
                 ps = hashlib.md5(sig.encode()).hexdigest()[:6]
             cn = cn + '__' + ps
+            if re.search(r'\)\s*const\b', sig or ''):
+                cn += '_const'
         if cn in self.used_cnames and self.used_cnames[cn] != first:
             cn += '_' + hashlib.md5((fd.get('mangledName') or first).encode()).hexdigest()[:6]
         cn = self.cfg.rename.get(cn, cn)
@@ -923,6 +983,8 @@ class Unit:
             out.append(self.struct_text[name])
         for cn, txt in self.consts.items():
             out.append(txt)
+        for i, sid in enumerate(self.report['atomic_sites'], 1):
+            out.append('#define SITE_%s %d' % (sanitize(sid.replace(':', '__').replace('()', '').replace('.', '_')), i))
         for cn, txt in self.atomic_ops.items():
             out.append(txt)
         for cn, txt in self.extern_protos.items():
@@ -954,8 +1016,8 @@ class Unit:
 
 PREDEFINED_STRUCTS = {
     '__m128i': 'struct @ { signed char b[16]; } __attribute__((aligned(16)));',
-    'timespec': 'struct @ { long tv_sec; long tv_nsec; };',
-    'iovec': 'struct @ { void *iov_base; size_t iov_len; };',
+    'timespec': '/* struct timespec: <time.h> */',
+    'iovec': '/* struct iovec: <sys/uio.h> */',
     'std::pmr::memory_resource': 'struct @ { void *__vptr; };',
 }
 
